@@ -11,9 +11,9 @@ theorem byte_masks : ∀ b, b < 256 → (b &&& 1 = b % 2) ∧ (b &&& 2 = 2 * (b 
 
 /-- Rust's truncating `%`/`/` in the integer arm agree with exact division by 100 -/
 theorem int_arm (ops : FOps) (v : Int) (d : Bool) :
-    (if (d && (Int.tmod v 100 != 0)) = true then Num.float (ops.div100 (ops.i2f v))
+    (if (d && (Int.tmod v 100 != 0)) = true then Num.float (ops.div100 (i2f v))
       else Num.int (if d = true then Int.tdiv v 100 else v))
-    = (if d = true then (if v % 100 = 0 then Num.int (v / 100) else Num.float (ops.div100 (ops.i2f v)))
+    = (if d = true then (if v % 100 = 0 then Num.int (v / 100) else Num.float (ops.div100 (i2f v)))
       else Num.int v) := by
   cases d
   · simp
@@ -124,7 +124,7 @@ theorem step_number (env : Env) (st : St) (p : PC) (x : Nat) (hr : p.row < 65536
 theorem step_rk (env : Env) (st : St) (p : PC) (w : Nat) (hr : p.row < 65536) (hc : p.col < 65536)
     (hx : p.xf < 65536) (hw : w < 4294967296) :
     step env st ⟨0x027E, cellHdr p ++ le32 w, []⟩ =
-      .ok { st with cells := st.cells ++ [(p.row, p.col, fmtNum env.ops (rkNum env.ops w) env.fmts[p.xf]? env.is1904)] } := by
+      .ok { st with cells := st.cells ++ [(p.row, p.col, fmtNum (rkNum env.ops w) env.fmts[p.xf]? env.is1904)] } := by
   obtain ⟨h0, h2, h4, hl⟩ := hdr16 p (le32 w) hr hc hx
   have h6 : u32At (cellHdr p ++ le32 w) (4 + 2) = w := by
     rw [u32At_append_right _ _ _ (by simp [cellHdr_length]), cellHdr_length]
